@@ -409,6 +409,11 @@ impl Render {
             self.cmd(c);
         }
     }
+    fn empty_word(&mut self) {
+        let w = *self.rng.pick(&["$(st 3)", "$(st 0)", "`st 7`", "$unset_e", "\"$@\"", "$(exit 9)", "$(st 3)$(st 0)", "$(st 0)$(st 5)"]);
+        self.out.push(' ');
+        self.out.push_str(w);
+    }
     fn simple(&mut self, words: &[String]) {
         for (i, w) in words.iter().enumerate() {
             if i > 0 {
@@ -499,8 +504,16 @@ impl Render {
             }
             Cmd::For(n, b) => {
                 self.out.push_str("for v in");
+                // words that expand to no field may sit anywhere in the list; the status of a
+                // command substitution among them must not become the loop's status or `$?`
                 for i in 0..*n {
+                    if self.rng.chance(1, 5) {
+                        self.empty_word();
+                    }
                     write!(self.out, " w{i}").unwrap();
+                }
+                if self.rng.chance(1, if *n == 0 { 2 } else { 5 }) {
+                    self.empty_word();
                 }
                 if self.rng.chance(1, 2) {
                     self.out.push_str("; ");
@@ -513,7 +526,8 @@ impl Render {
                 self.out.push_str("done");
             }
             Cmd::Case(items) => {
-                self.out.push_str("case x in");
+                let subject = *self.rng.pick(&["x", "x", "\"x\"", "'x'", "x$(st 3)", "$(st 4)x", "${unset_e}x", "`st 9`\"x\""]);
+                write!(self.out, "case {subject} in").unwrap();
                 self.opt_nl();
                 for (m, k, b) in items {
                     if self.rng.chance(1, 2) {
